@@ -58,3 +58,33 @@ Record cm_program := mkCm {
 }.
 
 Record switch := mkSwitch { sw_flag : bool; sw_default : bool }.
+
+(* ---------------------------------------------------------------------------------------------- *)
+(* write-site inventory rows (translate/protocol.py, part 2)                                      *)
+(* ---------------------------------------------------------------------------------------------- *)
+Inductive rootk :=
+| RSelf | RCls | RParam          (* the object written is reached from self / cls / a parameter *)
+| RGlobal | REnclosing           (* ... from a module-level name / a variable of an enclosing function *)
+| RProcess                       (* a call that changes interpreter-wide state *)
+| ROther.
+
+Inductive shapek :=
+| ShAttr                         (* root.x = v *)
+| ShItem                         (* root.x[k] = v, root.x.append(v), root[k] = v *)
+| ShDeep                         (* anything reaching further in, or through a local alias *)
+| ShCall.
+
+Inductive flagk :=
+| FPlain
+| FRebound                       (* self.<class-level attr>[..] written AFTER self.<attr> was rebound to a fresh object here *)
+| FShared                        (* self.<class-level attr>[..] written with no such rebinding: the class-level object changes *)
+| FImport.                       (* executed at import time *)
+
+Inductive settingk :=
+| SNone | SDefaultValues | SNegPowers | SDefaultTables | SNumpyErr | SRandomSeed | SNamespace | SDefaultComparer
+| SOtherProcess.
+
+Record row := mkRow {
+  r_file : string; r_func : string; r_root : rootk; r_rootname : string; r_via : string; r_target : string;
+  r_kind : string; r_flag : flagk; r_shape : shapek; r_setting : settingk; r_count : nat
+}.
